@@ -747,36 +747,34 @@ func checkWithLocalVariable(r *Run, prog *Program, pfx string) {
 		return
 	}
 	cl := wlv.AnonFuncs[0]
-	stores, appends, loops := 0, 0, 0
-	okShape := false
-	for _, b := range cl.Blocks {
-		for _, ins := range b.Instrs {
-			switch x := ins.(type) {
-			case *ssa.Store:
-				if fa, ok := x.Addr.(*ssa.FieldAddr); ok && fieldName(fa.X.Type(), fa.Field) == optField(prog, "WithLocalVariable") && fa.X == ssa.Value(cl.Params[0]) {
-					stores++
-					if c, ok := x.Val.(*ssa.Call); ok {
-						if bi, ok := c.Call.Value.(*ssa.Builtin); ok && bi.Name() == "append" {
-							// first argument: load of the same field
-							if ld, ok := c.Call.Args[0].(*ssa.UnOp); ok {
-								if fa2, ok := ld.X.(*ssa.FieldAddr); ok && fieldName(fa2.X.Type(), fa2.Field) == optField(prog, "WithLocalVariable") {
-									okShape = true
-								}
-							}
-						}
-					}
-				}
-			case *ssa.Call:
-				if bi, ok := x.Call.Value.(*ssa.Builtin); ok && bi.Name() == "append" {
-					appends++
-				}
-			case *ssa.If:
-				loops++
+	// decided on the closure's paths (a helper method of *options that does the push is interpreted in place): one path,
+	// one store, into the bindings field, of append(<that same field>, <one new binding>)
+	paths := optionClosureStores(prog, cl)
+	field := optField(prog, "WithLocalVariable")
+	okShape := len(paths) == 1
+	stores, appends := 0, 0
+	for _, op := range paths {
+		for _, st := range op.stores {
+			stores++
+			if st.field != field || field == "" {
+				okShape = false
+				continue
+			}
+			base, parts := appendChain(op.sm.St, st.val)
+			appends += len(parts)
+			if !(len(parts) == 1 && base != nil && base.K == sLoad && base.A.Key() == st.addr.Key()) {
+				okShape = false
+				continue
+			}
+			// exactly one element, a new binding built here
+			d := parts[0].Deref[1]
+			if d == nil || d.K != sStruct || len(d.F) != 1 {
+				okShape = false
 			}
 		}
 	}
-	r.Check(pfx+".binding-push", "WithLocalVariable", prog.pos(cl.Pos()), stores == 1 && appends == 1 && loops == 0 && okShape,
-		fmt.Sprintf("WithLocalVariable must unconditionally append exactly one new binding to the existing ones (stores=%d appends=%d branches=%d): replacing or editing an earlier binding breaks resolution of inner aliases through outer ones", stores, appends, loops))
+	r.Check(pfx+".binding-push", "WithLocalVariable", prog.pos(cl.Pos()), stores == 1 && appends == 1 && okShape,
+		fmt.Sprintf("WithLocalVariable must unconditionally append exactly one new binding to the existing ones (paths=%d stores=%d appends=%d): replacing or editing an earlier binding breaks resolution of inner aliases through outer ones", len(paths), stores, appends))
 }
 
 func init() {
